@@ -346,6 +346,10 @@ def run(ctx):
         a["states"] += st_
         a["transitions"] += tr_
     a["evals"] += site_execs
+    from .c01 import corpus_pass
+    c_evals, c_viols, c_outcomes, c_note = corpus_pass(ctx, judge)
+    res.merge_violations(c_viols)
+    a["evals"] += c_evals
     # static part: after the first get_converter no field annotation is still a string
     unresolved = 0
     nfields = 0
@@ -364,7 +368,7 @@ def run(ctx):
         "rule": "every VSE derivation of every root is structured; the object graph is walked against the resolved attrs "
                 "annotations and, in lock-step with the input, against the metamodel (union positions: an alternative valid for the input); plus "
                 "every union site x alternative x shape of C14 (heterogeneous arrays, maximal alternatives) embedded in its owner root",
-        "union_site_executions": site_execs,
+        "union_site_executions": site_execs, "testdata_true_vectors_walked": c_evals,
         "roots": a["roots"], "bounds": {"min_base_k": kmin, "max_base_k": kmax},
         "outcome_classes": a["outcomes"], "attrs_fields_checked_resolved": nfields,
         "capped_roots": a["capped"], "exhaustive": not a["capped"], "samples": a["samples"],
